@@ -97,3 +97,28 @@ def run (cfg : Cfg) : SMap → History → SMap × List SOut
 
 end Spec
 end Cache
+
+namespace Cache
+
+/-- Extended operations: the public ones plus a cleanup cycle (janitor) and the restore of one dumped record. -/
+inductive XOp
+  | base (op : Op)
+  | cleanup (ho so hasNeeded needed : Bool)
+  | restore (e : Entry)
+  deriving Repr
+
+abbrev XHistory := List (Time × XOp)
+
+def Backend.xstep (hash : Key → Nat) (kind : Kind) (cfg : Cfg) (s : Store) (now : Time) : XOp → Store × List Metric
+  | .base op => let r := Backend.step hash kind cfg s now op; (r.1, r.2.2)
+  | .cleanup ho so hn needed => s.cleanup kind cfg { now, ho, so, hasNeeded := hn, needed }
+  | .restore e => (s.restoreOne hash e, [])
+
+def Backend.xrun (hash : Key → Nat) (kind : Kind) (cfg : Cfg) : Store → XHistory → Store × List Metric
+  | s, [] => (s, [])
+  | s, (now, op) :: rest =>
+    let (s1, ms) := Backend.xstep hash kind cfg s now op
+    let (s2, ms') := Backend.xrun hash kind cfg s1 rest
+    (s2, ms ++ ms')
+
+end Cache
